@@ -2,7 +2,7 @@
 # run every claimed check in the quick tier for the given seeds; print one line each
 cd /verif
 for seed in "$@"; do
-  for p in $(python3 -c "import json;print(' '.join(c['property_id'] for c in json.load(open('MANIFEST.json'))['checks']))") X01; do
+  for p in $(python3 -c "import json;print(' '.join(c['property_id'] for c in json.load(open('MANIFEST.json'))['checks']))") X01 X02; do
     s=$(date +%s)
     out=$(VERIF_SEED=$seed ./check $p --tier quick 2>&1); rc=$?
     e=$(date +%s)
